@@ -69,6 +69,10 @@ CLAIMED = {
   "Deductive proof of builtin.Transaction with panics modelled as control flow (the block is Thread.Call, which may return or panic with any value; the deferred function runs on every exit with recover() live): on a normal return of the block form the transaction is ended and Transaction itself did not roll it back; a panic never turns into a normal return (the exception still propagates); when the block threw a value other than BlockReturn the transaction is ended and was not completed by Transaction; when it threw BlockReturn it was not rolled back by Transaction; after ANY exit by panic once the transaction object exists it is ended - including the paths on which Complete or Rollback themselves fail. core.SuTran.Complete/Rollback/Ended are proved against the status field (normal exit: completed / aborted; exit by panic: aborted / not active).",
   "Assumed: Thread.Call (the interpreter running the block) may modify anything, returns or panics, and records in ghost variables whether it panicked and whether with BlockReturn; ITran.Complete/Abort and IDbms.Transaction are effect-free as far as this model goes (what the database does is C01/C03 territory); NewSuTran binds the ghost reference to the new transaction object (modelling device, assumed). Counting is by ghost counters of the Complete/Rollback calls made by Transaction itself (calls inside the block are behind Thread.Call). 'Completed exactly when...' is therefore: ended on every exit + the right one of Complete/Rollback attempted; that a successful Complete commits is the dbms's business. Contract mode nosafety (argument indexing). The other block forms (tran.Query block, Cursor) are not covered.",
   "DESIGN.md §0.3 C42"),
+ "C44": (
+  "Deductive proof about trigger dispatch: (1) the enable count: enabled(table) <=> disabled[table] == 0, DisableTrigger adds exactly one, EnableTrigger removes exactly one and panics instead of going below zero (map-valued state, lock-protected methods verified as atomic steps) - so a trigger is enabled again only after as many enables as disables; (2) call2 (panics as control flow, recover modelled): a disabled trigger is NOT called (no Thread.Call), an enabled one is called exactly once when the trigger function exists and not at all otherwise, an exception thrown by the trigger is never swallowed: it leaves call2 as a panic (wrapped by WrapPanic, which never returns) and a panic can only come from that one call; (3) every row change announces itself: each normal return of UpdateTran.Output (unless the database is marked corrupted), Delete, and update (unless corrupted or the row is unchanged) has gone through CallTrigger at least once - exactly once for Output - AFTER the change was applied, with cascaded deletes going through Delete again; CallTrigger calls the trigger at most once and does not swallow its exception, so the change is not committed when the trigger throws (the panic propagates to the transaction's caller).",
+  "Scope: dispatch and counting. Thread.Call (running the trigger code), Global.FindName, WrapPanic, the checker, index updates and everything else Output/Delete/update call are assumed or havoced ('nosafety' mode: no run-time panic freedom claimed for them); MakeSuTran is an injected function variable without contract, so 'the enable count is unchanged between CallTrigger's entry and call2's test' is not proved. That the old/new rows passed to the trigger are the right ones, fkeyUpdateCascade's use of update, and that the trigger runs inside the changing transaction object are by reading, not proved. gDispatch/gCalls are ghost counters defined by assumed clauses (modelling devices).",
+  "DESIGN.md §0.3 C44"),
  "C05": (
   "Deductive proof about repair.search, the function that picks the state a damaged database is cut back to: for every sequence of state offsets the scanner can deliver (modelled by an uninterpreted sequence scanOff(k) handed out incrementally, never shrinking) and every outcome of the per-state check (uninterpreted predicate goodAt), search never indexes outside the offsets found - also when there are none - , returns (0,0,nil) when nothing is good, and otherwise returns a state that passed the check together with its own offset, whose more recent neighbour was checked and is bad (the result of the exponential + binary search under the documented assumption that good and bad states are not interleaved); both loops have invariants, the binary search a variant, no arithmetic overflow (skip doubling).",
   "Scope: the selection logic of search only. The scanner goroutine, getUpTo's locking, check/checkState (checksum verification of metadata, btree nodes and records), fix/truncate, readTail and MmapStor's trailing zero stripping are assumed or not covered; crash points and file contents are not enumerated (the property's quantifier over crash points is not expressible as a contract). The deferred scnr.close() is executed at normal exits only. One genuine defect found by the bounds obligation was fixed (Repair crashed with index out of range [-1] on a file without any state).",
